@@ -72,7 +72,10 @@ func Discharge(vcs []*FuncVC, opts RunOpts) {
 					for _, hs := range opts.Hints.Get(j.o.Name) {
 						sq, ok := sliceByHint(q, hs)
 						if !ok {
-							continue
+							// the code or a contract changed: hinted hypotheses still present + all new hypotheses
+							if sq, ok = sliceTolerant(q, hs, opts.Hints.allOf(j.o.Name)); !ok {
+								continue
+							}
 						}
 						ht := to
 						if ht > 10 {
@@ -101,6 +104,9 @@ func Discharge(vcs []*FuncVC, opts RunOpts) {
 							}
 						}
 					}
+				}
+				if opts.Record && opts.Hints != nil && !j.o.Cover {
+					opts.Hints.AddAll(j.o.Name, q)
 				}
 				j.o.Result = r
 				j.o.Hinted = hinted
